@@ -31,6 +31,9 @@ func genC07(g *Gen) *Plan {
 		cfg = baseConfig(8, hfpCfg, storeURL)
 		p.ShardMode = "one"
 		p.InlineStore = true
+		// the store may keep a record beyond its TTL (lazily expiring stores do): the period ends
+		// when pike's own clock says so
+		p.StoreTTL = pick(g, "exact", "exact", "late", "never")
 	}
 	cfg.Locations[0].ProxyTimeout = "3s"
 	p.Configs = []Config{cfg}
